@@ -49,8 +49,8 @@ func VerifC17Format() {
 	path := dir + "/regex-assembly/942100.ra"
 	vWriteFile(path, hdr1+"\n"+hdr2+"\n\n"+c17Lines(k, long))
 	ctxt := processors.NewContext(context.NewWithConfiguration(dir, &configuration.Configuration{}))
+	vReach("before-formatted")
 	err := processFile(path, ctxt, false)
-	vReach("formatted")
 	vAssert(err != nil || c17Count(vReadFile(path)) == k+3, "C17 format: lines after a line longer than 64 KiB are silently dropped from the rewritten file")
 }
 
@@ -66,7 +66,7 @@ func VerifC17Update() {
 	path := dir + "/rules/REQUEST-932-X.conf"
 	rule := "SecRule ARGS \"@rx old\" \\\n    \"id:932100,\\\n    deny\"\n"
 	vWriteFile(path, rule+c17Lines(k, long))
+	vReach("before-updated")
 	updateRegex(path, "932100", 0, "new")
-	vReach("updated")
 	vAssert(c17Count(vReadFile(path)) == k+3, "C17 update: lines after a line longer than 64 KiB are silently dropped from the rules file")
 }
